@@ -78,25 +78,10 @@ def generate(seed, tier, index):
         entry["phys"]["us"] = us_t
         entry["phys"]["eu"] = dict(us_t)
     elif giant:
-        # one channel A -> n B firing between 2^31/n and 2^31 times in a single step of a single cell (billions of molecules
-        # of A): counts and per-step firing numbers are exact in doubles, and n*firings leaves the 32-bit range
-        n_ = rs.choice([2, 2, 3])
-        F = rs.uniform(1.15 * 2 ** 31 / n_, 0.85 * 2 ** 31)
-        kdt = rs.uniform(0.3, 0.6)
-        kdec = rs.loguniform(0.1, 10.0)
-        vol = (rs.loguniform(0.5, 2.0) * 1e-6) ** 3
-        nc_ = rs.choice([1, 2])
-        spec_g = {"envs": ["cyt"],
-                  "species": [{"label": "A", "D": [0.0], "dens": [0.0], "chst": [0]},
-                              {"label": "B", "D": [0.0], "dens": [0.0], "chst": [0]}],
-                  "reactions": [{"label": None, "sub": {"A": 1}, "prod": {"B": n_}, "kf": [kdec], "kr": [0.0]}],
-                  "space": {"type": "grid", "w": nc_, "h": 1, "d": 1, "bc": ["reflecting"] * 3, "cell_env": [0] * nc_, "vol": vol},
-                  "state": [float(int(F / kdt))] + [float(rs.randint(0, 1000))] * (nc_ - 1) + [float(rs.randint(0, 50))] * nc_,
-                  "chem": None}
-        dtg = kdt / kdec
-        sp_g = {"kind": "tauleap", "dt": dtg, "t_sample": [0.0, 2.5 * dtg, 4.5 * dtg], "t_max": None, "policy": "on_iteration",
-                "interval": dtg, "seed": rk.bits(31), "isp": "none", "ongrid": False, "steps": 5}
-        entry = C.rerender_plain({"phys": {"spec": spec_g, "sp": sp_g, "kind": "tauleap"}})
+        # one channel A -> n B firing between 2^31/n and 2^31 times - or, half of the time, more than 2^31 times - in a single
+        # step of a single cell (billions of molecules of A): counts and per-step firing numbers are exact in doubles,
+        # n*firings (and the firing number itself) leaves the 32-bit range
+        entry = C.giant_entry(rs, rk)
     else:
         entry = C.make_script_entry(rs, ru, rk, kind, p,
                                     {"steps": steps, "policy": rk.choice(["on_iteration", "on_iteration", "on_interval", "on_t_sample"]),
